@@ -53,9 +53,18 @@ def three_forms(ctx, loader, obj, tag, **kw):
     """Load obj directly, from a str path and from a Path; the outcomes must agree."""
     outs = []
     p = ctx.tmp / "c13.json"
-    for form in ("object", "str", "Path", "relative-str"):
+    forms = ("object", "str", "Path", "relative-str") + (("deep-str",) if ctx.n_files % 3 == 0 else ())
+    for form in forms:
         if form == "object":
             arg = obj
+        elif form == "deep-str":
+            # a location several hundred characters long: short directory names, nested deeply (a file name may have
+            # 255 bytes, a path 4096 - seed C13-W: strings beyond a length taken for data rather than for a location)
+            deep = ctx.tmp.joinpath(*(["nested-directory-%02d" % i for i in range((13, 20, 45)[ctx.n_files % 3 if ctx.n_files % 9 else 2])]))
+            deep.mkdir(parents=True, exist_ok=True)
+            (deep / "c13.json").write_text(json.dumps(obj, ensure_ascii=True), encoding="utf-8")
+            arg = str(deep / "c13.json")
+            probe.S.counters[f"wl:deep-path:len{len(arg) // 100}00"] += 1
         elif form == "relative-str":
             # a relative file name (the process works in the scratch directory) that looks like something else to URL
             # machinery: a colon after a scheme-like label, a query or fragment mark, a percent sign
@@ -74,9 +83,10 @@ def three_forms(ctx, loader, obj, tag, **kw):
         if form == "object":
             first = o
     probe.evaluated("file-vs-object")
-    if not (outs[0] == outs[1] == outs[2] == outs[3]):
+    if any(x != outs[0] for x in outs[1:]):
         violation(["C13"], "file-vs-object", "file-and-object-forms-load-differently", loader=tag, input=obj,
-                  object_form=outs[0], str_form=outs[1], path_form=outs[2], relative_str_form=outs[3], relative_name=arg)
+                  object_form=outs[0], str_form=outs[1], path_form=outs[2], relative_str_form=outs[3],
+                  deep_str_form=outs[4] if len(outs) > 4 else None, last_location=arg)
     return first
 
 
